@@ -206,3 +206,42 @@ func zzC12_blockwise_client() {
 		cc.ReleaseMessage(c.resp)
 	}
 }
+
+// a block-wise upload is cancelled by its caller at the very moment the peer's 2.31 Continue is being processed; the
+// caller releases its request as soon as Do has returned: the library does not touch the request after that
+func zzC12_blockwise_cancel_race() {
+	symGhost(true)
+	s := zzNewSession()
+	cc := zzNewConn(s, zzConnCfg{midSeed: 1000, nstart: 2, maxRetrans: 4, poolSize: 1024, blockwise: true})
+	symSetNow(time.Unix(0, 1<<41))
+	ctx, cancel := context.WithCancel(context.Background())
+	tok := message.Token{0xB1, 0xB2}
+	done := false
+	go func() {
+		req := cc.AcquireMessage(ctx)
+		req.SetToken(tok)
+		_ = req.SetPath("/big")
+		req.SetCode(codes.PUT)
+		req.SetContentFormat(message.AppOctets)
+		req.SetBody(bytesReader(zzBigBody(40, 0x10)))
+		resp, err := cc.Do(req)
+		if err == nil && resp != nil {
+			cc.ReleaseMessage(resp)
+		}
+		cc.ReleaseMessage(req) // Do has returned: the request is the application's again and goes back to the pool
+		done = true
+	}()
+	zzWaitWritten(s, 1)
+	symIdle()
+	w := s.written[0]
+	m := zzRequest(message.Acknowledgement, w.mid, codes.Continue, w.token, nil)
+	m.SetOptionUint32(message.Block1, zzBlockOpt(0, true))
+	d, _ := m.MarshalWithEncoder(coder.DefaultCoder)
+	_ = cc.Process(nil, append([]byte(nil), d...)) // handed to the receive loop ...
+	cancel()                                        // ... while the caller gives up
+	symWaitUntil(func() bool { return done })
+	symIdle()
+	symCover("cancelled-during-continue")
+	x, y := cc.AcquireMessage(cc.Context()), cc.AcquireMessage(cc.Context())
+	symAssert(x != y, "the pool never hands one message to two owners")
+}
